@@ -322,8 +322,8 @@ class subdomain_deflation {
                         &zsend[ndv * Acp.send.ptr[i]], ndv * (Acp.send.ptr[i+1] - Acp.send.ptr[i]),
                         dtype, Acp.send.nbr[i], tag_exc_vals, comm, &Acp.send.req[i]);
 
-            MPI_Waitall(Acp.recv.req.size(), &Acp.recv.req[0], MPI_STATUSES_IGNORE);
-            MPI_Waitall(Acp.send.req.size(), &Acp.send.req[0], MPI_STATUSES_IGNORE);
+            MPI_Waitall(Acp.recv.req.size(), Acp.recv.req.data(), MPI_STATUSES_IGNORE);
+            MPI_Waitall(Acp.send.req.size(), Acp.send.req.data(), MPI_STATUSES_IGNORE);
 
 #pragma omp parallel
             {
